@@ -140,6 +140,49 @@ def run(ctx):
                 check_system(ctx, dict(case, A=A2.tolist(), patterned=True), name, A2, B.reshape(n, -1), Xp.reshape(n, -1), 'PatternedTensor.solve')
             except Exception as e:  # noqa
                 ctx.fail(f'PatternedTensor.solve raised {type(e).__name__}: {str(e)[:80]}', case, repr(e), None, tags=['raises', 'PatternedTensor.solve', name])
+    # ---- PatternedTensor.solve on typed random sparsity patterns of A and b (products, sums, shared axes, structurally disjoint
+    #      patterns such as A living in one component of a sum type and b in the other)
+    from . import ptgen
+    for k in range(60 if ctx.quick else 1200):
+        ty = ptgen.random_type(ctx.rng, depth=ctx.rng.choice([1, 1, 2]), sizes=[1, 2, 3, 2])
+        n = ptgen.ty_numel(ty)
+        if n > 6:
+            continue
+        tyb = [ty] + ([ptgen.random_type(ctx.rng, depth=1, sizes=[1, 2, 3])] if ctx.rng.random() < 0.4 else [])
+        for name in ('real', 'log', 'viterbi', 'bool'):
+            base = 'real' if name == 'log' else name
+            zero = {'real': 0.0, 'viterbi': -math.inf, 'bool': False}[base]
+            if base == 'bool':
+                pa = ptgen.random_pt(ctx.rng, [ty, ty], bool_=True, p_dense=0.15)
+                pb = ptgen.random_pt(ctx.rng, tyb, bool_=True, p_dense=0.15)
+                pa.default = False; pb.default = False
+            else:
+                vals = [0.0, 0.25, 0.125, 0.5, 0.0, 1.0] if base == 'real' else VIT_V
+                pa = ptgen.random_pt(ctx.rng, [ty, ty], values=vals, defaults=[zero], specials=0.0, p_dense=0.15)
+                pb = ptgen.random_pt(ctx.rng, tyb, values=[0.0, 1.0, 2.0, 0.5] if base == 'real' else VIT_V, defaults=[zero], specials=0.0, p_dense=0.15)
+            A, B = pa.to_dense(), pb.to_dense().reshape(n, -1)
+            if name == 'log':
+                pa = PatternedTensor(pa.physical.log(), pa.paxes, pa.vaxes, -math.inf)
+                pb = PatternedTensor(pb.physical.log(), pb.paxes, pb.vaxes, -math.inf)
+            case = dict(semiring=name, A=A.tolist(), b=B.tolist(), a_pattern=ptgen.enc_pt(pa) if name != 'log' else None, b_pattern=ptgen.enc_pt(pb) if name != 'log' else None)
+            from .c06 import is_dense
+            ctx.case(case, (name, str(case['a_pattern']), str(case['b_pattern'])) if not (is_dense(pa) and is_dense(pb)) else None, sample_every=80)
+            ctx.count(f'patterned-solve.{name}')
+            da, db = pa.to_dense().clone(), pb.to_dense().clone()
+            try:
+                xp = pa.solve(pb, S[name])
+                Xp = from_sr(xp.to_dense(), name)
+            except Exception as e:  # noqa
+                disjoint = bool((torch.as_tensor(A != zero).to(torch.float64) @ torch.as_tensor(B != zero).to(torch.float64) == 0).all())
+                ctx.fail(f'PatternedTensor.solve raised {type(e).__name__}: {str(e)[:80]}', case, repr(e), None,
+                         tags=['raises', 'PatternedTensor.solve', name, type(e).__name__] + (['A@b-structurally-zero'] if disjoint else []))
+                continue
+            if not ptgen.same_dense(pa.to_dense(), da) or not ptgen.same_dense(pb.to_dense(), db):
+                ctx.fail('PatternedTensor.solve modified its arguments', case, None, None, tags=['args-modified', 'PatternedTensor.solve'])
+            if list(Xp.shape) != list(pb.shape):
+                ctx.fail('PatternedTensor.solve returned a result of the wrong shape', case, list(Xp.shape), list(pb.shape), tags=['shape', 'PatternedTensor.solve'])
+                continue
+            check_system(ctx, dict(case, patterned=True), name, A, B, Xp.reshape(n, -1), 'PatternedTensor.solve')
     # ---- corpus: systems on which an LU answer is slightly negative / -0.0 and must be rejected
     for A, B in [([[2.0]], [1e-4]), ([[1.5]], [1e-5]), ([[0.5, 1.0], [1.0, 0.5]], [1e-4, 1e-4]), ([[1.0]], [0.0]), ([[math.inf]], [0.0]),
                  ([[0.0, 2.0], [2.0, 0.0]], [1e-5, 0.0])]:
